@@ -554,10 +554,8 @@ def caller_step(case, die, st):
                 m.center.y = y
             else:
                 m.center = Point(x, y)
-        else:
-            raise ValueError(op)
-    except AssertionError as e:         # e.g. create_squares on a netlist with a terminal: stops half way
-        raised = str(e)
+    except Exception as e:              # e.g. create_squares on a netlist with a terminal: stops half way.  These
+        raised = f"{type(e).__name__}: {e}"     # steps are not what is judged here: whatever state they leave is the input
     STATS["caller_steps"] += 1
     STATS["caller_steps_raised"] += raised is not None
     return {"kind": op, "raised": raised, "after": state(die)}, die
@@ -681,8 +679,6 @@ def oracle_call(case, o):
     """the property, for one relocation call: from the values before the call to the values after it"""
     W, H = core.frac(float(case["W"])), core.frac(float(case["H"]))
     b, a = o["before"], o["after"]
-    if o["files"] or o["imgs"]:
-        return f"the run produced files or images: {o['files']} {o['imgs']}"
     # nothing but centres changed
     if b["snap"] != a["snap"] or b["fx"] != a["fx"]:
         if [m["name"] for m in b["snap"]["mods"]] != [m["name"] for m in a["snap"]["mods"]]:
@@ -807,7 +803,7 @@ def long_case(rng):
 
 def run(ctx, out, replay=None):
     quick = ctx.quick()
-    n_single, n_tie, n_big, n_long, n_hist = (52, 4, 3, 1, 44) if quick else (1000, 60, 36, 8, 800)
+    n_single, n_tie, n_big, n_long, n_hist = (52, 4, 3, 1, 44) if quick else (700, 40, 24, 4, 500)
     out.rule = ("dies k/4 (25% decimal k/10), 1-7 modules mixing soft / hard / fixed (rectangles in separate die cells) / "
                 "terminal with, without and with fixed centre, in any order; centres inside, on the border, in the corners, "
                 "at the die centre, coincident, 12% all on one vertical/horizontal line; 20% equal areas; names M0.. or "
